@@ -237,7 +237,7 @@ where
     fn adjacency_matrix(&self) -> FixedBitSet {
         let n = self.node_count();
         let mut matrix = FixedBitSet::with_capacity(n * n);
-        /*R:D11 for edge in self.edge_references() */ let mut __it = self.edge_references(); let ghost all = __it.remaining(); let ghost mut done: int = 0; let ghost dir = Ty::spec_is_directed(); loop
+        /*R:D11 for edge in */ let mut __it = /*-*/ self.edge_references() /*R:D11 */; let ghost all = __it.remaining(); let ghost mut done: int = 0; let ghost dir = Ty::spec_is_directed(); loop
             invariant
                 __it.obeys_prophetic_iter_laws(), __it.decrease() is Some,
                 0 <= done <= all.len(), __it.remaining() == all.skip(done),
